@@ -374,16 +374,24 @@ Definition keys_ok (st : store) : Prop := forall n, In (KI n) (map fst (st_srcs 
 Lemma eff_cert_cur ns sp : eff_cert cur ns sp = cfg_cert ns sp.
 Proof. unfold eff_cert, cfg_cert. destruct (sp_kind sp); reflexivity. Qed.
 
+(* the code's routing of check_validity (Model.eff_cv) switches validity checking off for a source exactly
+   when the specification switched it off (Spec.cfg_cv): an absent key leaves it on *)
+Lemma eff_cv_cfg ns sp : eff_cv ns sp = cfg_cv ns sp.
+Proof.
+  unfold eff_cv, cfg_cv, cv_switched_off.
+  destruct (sp_kind sp), ns, (sp_imp sp), (sp_scv sp), (sp_cv sp) as [[|]|]; reflexivity.
+Qed.
+
 (* a load the code reports as successful was acceptable, and contributes exactly the document's view *)
 Lemma load_static_accept ns sp now f m : load_static cur ns sp now f = Some m -> accept ns now sp f = Some m.
 Proof.
   unfold load_static, accept. destruct f as [|p sg]; [discriminate|].
-  rewrite parse_doc_says, eff_cert_cur. destruct (doc_says (eff_cv ns sp) now p) as [es|] eqn:Ed; [|discriminate].
+  rewrite parse_doc_says, eff_cert_cur, eff_cv_cfg. destruct (doc_says (cfg_cv ns sp) now p) as [es|] eqn:Ed; [|discriminate].
   destruct (sig_gate cur (cfg_cert ns sp) (sp_kind sp) (eff_node ns sp) p sg) eqn:Eg; [|discriminate].
   intros H; inversion H; subst. clear H. cbv zeta.
   destruct (cfg_cert ns sp) eqn:Ecc; [|reflexivity]. cbn [andb].
   destruct (sig_valid sg) eqn:Esv; [reflexivity|]. cbn [negb andb].
-  destruct (nonempty (view (eff_cv ns sp) now es)) eqn:Ene; [|reflexivity]. exfalso.
+  destruct (nonempty (view (cfg_cv ns sp) now es)) eqn:Ene; [|reflexivity]. exfalso.
   destruct p as [| |d].
   - cbn in Ed. discriminate.
   - cbn in Ed. inversion Ed; subst. cbn in Ene. discriminate.
